@@ -45,6 +45,14 @@
     whatever class pyarrow uses.  Replay: a bad header, EVERY proper prefix of a well-formed
     request, garbage, a schema-only stream, every single-byte corruption on the real app (a body
     pyarrow itself refuses must be 400; one it still reads: anything but a bare 5xx).
+(h) unary / init routes: the REAL `_deserialize_params` / `_validate_call_signature` / `_validate_params`
+    inside the real dispatchers and resources over a *symbolic* declared signature (parameters
+    optional / defaulted or not) and a *symbolic* parameter batch (number of columns, names incl.
+    repeated and undeclared ones, Arrow type equal or not, nullability): a batch that differs from the
+    declared parameters and is refused before the method runs is a parameter rejection => 400 + Arrow
+    error body, whatever class the validators raise for it ((b) only decides the classes it is told).
+    Which batches are accepted at all is C06.  Replay: the same signature as a real Protocol, the same
+    batch as real Arrow bytes, posted to the real unary and init routes.
 """
 
 from __future__ import annotations
@@ -86,18 +94,22 @@ _LM = pick(3, 5)
 BOUNDS = (
     "content type = exact Arrow type | absent | any string len<=%d; method = a unary name | a stream name | any string len<=%d; route in {unary, init, exchange}; "
     "failing validation step in {read, name, version gate (real), deserialize, signature, params} x 9-10 exception classes x 5 protocol-version situations; "
-    "request decoding (g): {unary, init} x {open, read, drain} x {OSError, StopIteration, pa.ArrowException subclasses}; max-bytes: path = prefix + '/' + any string len<=%d, ints 0..%d" % (_LM, _LM, pick(8, 10), pick(999, 99999))
+    "request decoding (g): {unary, init} x {open, read, drain} x {OSError, StopIteration, pa.ArrowException subclasses}; max-bytes: path = prefix + '/' + any string len<=%d, ints 0..%d; "
+    "parameter batches (h): {unary, init} x 0..%d declared int parameters (optional / defaulted or not) x 0..%d request columns (name among the declared ones or an undeclared one, type equal or not, nullable flag)" % (_LM, _LM, pick(8, 10), pick(999, 99999), pick(2, 3), 3)
 )
 OUTSIDE = (
     "Falcon routing and Falcon's own error responses (405, 404 sink); which exception class pyarrow raises for which malformed bytes (the classes are a symbolic dimension: pyarrow's whole ArrowException hierarchy except ArrowMemoryError/ArrowCancelled, which say nothing about the bytes); "
     "whether an exception class that no step's contract attributes to the caller (plain OSError / RuntimeError while reading — possibly a storage failure of an external location —, RuntimeError from a check, ...) is answered 400 or 200+marker, "
     "and which refusal wins when a version rejection and a later step's failure coincide: both answers are admitted; other 5xx HTTPStatus members the server package might name (none today); the upload-url route; "
     "the exchange dispatcher after request reading (tokens, see C12/C13); WHEN the compression middleware raises (C17/C19) — how what it raises is rendered is inside; 401 body shape (C21); how the max-bytes middleware measures a chunked body (C17); "
+    "which parameter batches the validators accept (C06: (h) judges only how a refusal of a non-conforming batch is answered); Arrow type equality itself and parameter values other than non-null ints in (h); "
     "everything after request validation (the method call itself; only the replays' battery touches a failing / succeeding call); the combined request space"
 )
 ASSUMPTIONS = [
     "_read_request / _deserialize_params / _validate_call_signature / _validate_params := one chosen step raises the chosen exception class (or the read returns ('other-name', {})) — "
     "which class these raise for which bytes/values is not decided here (C05/C06; (g) decides it for pyarrow's three decoder classes through the real _read_request); that whatever they raise is mapped per the table IS; the protocol-version gate is the real one",
+    "(h): _read_request := hands the symbolic batch on as the real one does (schema into the context variable, kwargs keyed by column name, values non-null ints); pa.Schema / pa.Field := duck-typed field lists, Arrow types := opaque tokens with ==; "
+    "the three validators and the dispatchers' except clauses are the real ones; a server attribute read after request validation = the request was accepted (not judged)",
     "classes that MUST be 400: read {ArrowInvalid, StopIteration, RpcError, VersionError, request-framing marker}, deserialize {ArrowInvalid, TypeError, KeyError, ValueError}, signature/params {TypeError} — from the property text and the steps' documented Raises:, not from the dispatcher's except clause",
     "_set_error_response in (b)/(e)/(g) := recorder that still calls the real _set_http_status (the real one serialises through pyarrow; it is exercised un-stubbed in (d)); a response built any other way must carry a really decodable Arrow error stream",
     "server.methods := linear-scan mapping with dict semantics (a symbolic key in a real dict realises)",
@@ -1484,3 +1496,289 @@ def undecodable_request_is_400(route: int, stage: int, kind: int) -> bool:
 
 
 ENCODED.append(_wire_mod._read_request)
+
+
+# ---------------------------------------------------------------------------
+# (h) unary / init routes: the REAL request validators on a symbolic parameter batch
+# ---------------------------------------------------------------------------
+# (b) decides how a validator's refusal is answered per exception CLASS; which class the real
+# validators use for which parameter batch is decided here: the real `_deserialize_params`,
+# `_validate_call_signature`, `_validate_params` run inside the real dispatchers and resources over a
+# symbolic declared signature and a symbolic request batch (only `_read_request` is a stand-in: it
+# hands over the batch's columns the way the real one does).  A parameter batch that differs from
+# the declared parameters (count, order, names, Arrow types, nullability) and is refused before the
+# method runs is a parameter rejection: 400 + Arrow error body, whatever the validators raise.
+
+from vgi_rpc.rpc._common import _current_request_param_schema  # noqa: E402
+
+
+class _PastValidation(Exception):
+    """The (h) server stand-in was asked for something only the call itself needs: the request was accepted."""
+
+
+_HST: dict = {"past": False, "fields": [], "method": ""}
+
+
+class _HTy:
+    """Opaque Arrow type token: only == / != and a printable form."""
+
+    def __init__(self, tok) -> None:  # noqa: ANN001
+        self.tok = tok
+
+    def __eq__(self, other: object) -> bool:
+        return isinstance(other, _HTy) and self.tok == other.tok
+
+    def __ne__(self, other: object) -> bool:
+        return not self.__eq__(other)
+
+    __hash__ = None  # type: ignore[assignment]
+
+    def __str__(self) -> str:
+        return "T"
+
+
+class _HField:
+    def __init__(self, name: str, tok, nullable) -> None:  # noqa: ANN001
+        self.name = name
+        self.type = _HTy(tok)
+        self.nullable = nullable
+
+    def __getattr__(self, attr: str):
+        raise HarnessModelError(f"pa.Field.{attr} is not modelled")
+
+
+class _HSchema:
+    """Duck-typed pa.Schema: len(), iteration, indexing over its fields."""
+
+    def __init__(self, fields: list) -> None:
+        self._fields = fields
+
+    def __len__(self) -> int:
+        return len(self._fields)
+
+    def __iter__(self):  # noqa: ANN204
+        return iter(self._fields)
+
+    def __getitem__(self, i):  # noqa: ANN001, ANN204
+        return self._fields[i]
+
+    def field(self, i):  # noqa: ANN001, ANN201
+        return self._fields[i]
+
+    @property
+    def names(self) -> list:
+        return [f.name for f in self._fields]
+
+    def __getattr__(self, attr: str):
+        raise HarnessModelError(f"pa.Schema.{attr} is not modelled")
+
+
+class _HInfo:
+    def __init__(self, name: str, mt: MethodType) -> None:
+        self.name = name
+        self.method_type = mt
+        self.param_types: dict = {}
+        self.param_defaults: dict = {}
+        self.params_schema = _HSchema([])
+
+    def __getattr__(self, attr: str):
+        raise HarnessModelError(f"RpcMethodInfo.{attr}: only what request validation reads is modelled")
+
+
+_H_INFOS = [_HInfo(_UNARY_NAME, _UNARY_TYPE), _HInfo(_STREAM_NAME, MethodType.STREAM)]
+
+
+class _HServer(_Server):
+    ipc_validation = IpcValidation.FULL
+    methods = _Methods([(_UNARY_NAME, _H_INFOS[0]), (_STREAM_NAME, _H_INFOS[1])])
+
+    def __getattr__(self, name: str):
+        # protocol_name, ctx_methods, implementation, ...: what the dispatchers read once request
+        # validation is over (a read from INSIDE the validation block is detected in the driver)
+        _HST["past"] = True
+        raise _PastValidation(name)
+
+
+def _h_read_request(*a, **k):  # noqa: ANN002, ANN003, ANN201
+    """What the real `_read_request` hands on for a well-framed one-row batch: the batch's schema in
+    the context variable, kwargs keyed by column name (a repeated name keeps the last value)."""
+    fields = _HST["fields"]
+    _current_request_param_schema.set(_HSchema(fields))
+    return (_HST["method"], {f.name: 1 for f in fields})
+
+
+_h_unary = reglobalize(_app_unary._run_unary_sync, _read_request=_h_read_request)
+_h_init = reglobalize(_app_stream._run_stream_init_sync, _read_request=_h_read_request)
+
+
+class _HApp(_FakeApp):
+    _server = _HServer()
+
+    def _unary_sync(self, method, info, stream):  # noqa: ANN001, ANN201
+        return _h_unary(self, method, info, stream)
+
+    def _stream_init_sync(self, method, info, stream):  # noqa: ANN001, ANN201
+        return _h_init(self, method, info, stream)
+
+
+class _HHolder:
+    _app = _HApp()
+
+
+_H_DECL = ("a", "b", "c")
+_HN = pick(2, 3)  # declared parameters
+_HM = 3  # request columns
+_H_NAMES = _H_DECL[:_HN] + ("z",)  # the declared names and one no signature declares
+_H_TIED = pick(True, False)  # quick: the parameters are all optional or all not
+_SIG_SHAPE = "C15:parameter-shape-rejection:not-400"
+
+
+def _h_pick(i: int, n: int) -> int:
+    for j in range(n):
+        if i == j:
+            return j
+    raise HarnessModelError("index outside the stated bound")
+
+
+def _h_protocol(n: int, ddef, dnull):  # noqa: ANN001, ANN201
+    """A real Protocol + implementation with the counterexample's signature, as a unary method
+    (`add`) and as a stream initialiser (`fed`); keyword-only so that any parameter may have a default."""
+    params = []
+    for i in range(n):
+        opt = bool(dnull[i])
+        params.append(f"{_H_DECL[i]}: {'int | None' if opt else 'int'}" + ((" = None" if opt else " = 0") if ddef[i] else ""))
+    plist = "".join(", " + p for p in (["*"] + params if params else []))
+    calls: list = []
+    ns: dict = {"Protocol": Protocol, "Stream": Stream, "_EchoState": _EchoState, "pa": pa, "CALLS": calls}
+    src = (
+        f"class P(Protocol):\n    def add(self{plist}) -> int: ...\n    def fed(self{plist}) -> Stream[_EchoState]: ...\n"
+        f"class Impl:\n    def add(self{plist}) -> int:\n        CALLS.append('add')\n        return 1\n"
+        f"    def fed(self{plist}) -> Stream[_EchoState]:\n        CALLS.append('fed')\n        sch = pa.schema([pa.field('v', pa.int64())])\n"
+        "        return Stream(output_schema=sch, state=_EchoState(), input_schema=sch)\n"
+    )
+    exec(src, ns)  # noqa: S102
+    with warnings.catch_warnings():
+        warnings.simplefilter("ignore")
+        server = RpcServer(ns["P"], ns["Impl"]())
+        return server, make_sync_client(server, token_key=b"k" * 32), calls
+
+
+def _replay_shape(a: dict) -> str | None:
+    """The counterexample's signature as a real Protocol and its parameter batch as real Arrow
+    bytes, posted to the real unary and stream-init routes: a batch that differs from the declared
+    parameter schema and is not dispatched must be 400 + Arrow error body.  A dispatched call and a
+    conforming batch are not judged here (C06)."""
+    n, m = a["n"], a["m"]
+    try:
+        server, client, calls = _h_protocol(n, a["ddef"], a["dnull"])
+    except Exception:  # noqa: BLE001
+        return None  # the replay's own set-up failed: no verdict
+    try:
+        for route in (0, 1):
+            method = _STREAM_NAME if route == 1 else _UNARY_NAME
+            declared = server.methods[method].params_schema
+            fields, arrays = [], []
+            for j in range(m):
+                typ = pa.int64() if a["rsame"][j] else pa.float64()
+                fields.append(pa.field(_H_NAMES[a["rname"][j]], typ, nullable=bool(a["rnull"][j])))
+                arrays.append(pa.array([1], type=typ))
+            sch = pa.schema(fields)
+            conforming = len(sch) == len(declared) and all(
+                f.name == d.name and f.type == d.type and f.nullable == d.nullable for f, d in zip(sch, declared, strict=False)
+            )
+            if conforming:
+                continue
+            md = pa.KeyValueMetadata({RPC_METHOD_KEY: method.encode(), REQUEST_VERSION_KEY: REQUEST_VERSION})
+            buf = BytesIO()
+            with pa.ipc.new_stream(buf, sch) as w:
+                w.write_batch(pa.RecordBatch.from_arrays(arrays, schema=sch), custom_metadata=md)
+            del calls[:]
+            r = _post_real(client, _paths(route, method), buf.getvalue())
+            if calls:
+                continue  # dispatched: whether it should have been is C06's question
+            marked = r.headers.get(RPC_ERROR_HEADER.lower()) == "true"
+            arrow = r.headers.get("content-type", "") == _ARROW_CONTENT_TYPE and _arrow_exception_body(r.content)
+            v = _answer_verdict(r.status_code, marked, arrow, (400,))
+            if v:
+                cols = [(f.name, str(f.type), f.nullable) for f in sch]
+                return f"POST {_paths(route, method)} declared {str(declared).replace(chr(10), ', ')!r} (defaults: {sorted(server.methods[method].param_defaults)}), request columns {cols}: the parameter batch is refused before the method runs, but {v}"
+    finally:
+        client.close()
+    return None
+
+
+@cond(q=300, t=1800, replay=_replay_shape, signature=lambda a, c: _SIG_SHAPE,
+      encoded=[_wire_mod._validate_call_signature, _wire_mod._deserialize_params, _wire_mod._validate_params, _app_unary._run_unary_sync, _app_stream._run_stream_init_sync,
+               _resources._RpcResource.on_post, _resources._StreamInitResource.on_post],
+      stubs=["_read_request := hands over the symbolic batch as the real one does (schema -> context variable, kwargs keyed by column name)",
+             "pa.Schema / pa.Field := duck-typed field lists (name, type, nullable); Arrow types := opaque tokens compared with ==",
+             "server := anything the dispatchers read after request validation raises the 'accepted' marker", "_set_error_response := recorder + real _set_http_status", "falcon Request/Response := attribute bags"],
+      bound="{unary, init} route x declared: 0..%d int parameters a,b,c, each defaulted-or-not x optional-or-not (quick: all or none optional); request: 0..%d columns, name in %r, declared Arrow type or another, nullable flag; all values non-null" % (_HN, _HM, _H_NAMES))
+def parameter_shape_rejection_is_400(n: int, ddef: tuple[bool, bool, bool], dnull: tuple[bool, bool, bool],
+                                     m: int, rname: tuple[int, int, int, int], rsame: tuple[bool, bool, bool, bool], rnull: tuple[bool, bool, bool, bool]) -> bool:
+    """
+    pre: 0 <= n <= _HN and 0 <= m <= _HM
+    pre: all(0 <= x < len(_H_NAMES) for x in rname)
+    pre: not _H_TIED or dnull[0] == dnull[1] == dnull[2]
+    post: _
+    """
+    req_fields = [_HField(_H_NAMES[_h_pick(rname[j], len(_H_NAMES))], rsame[j], rnull[j]) for j in range(m)]
+    for route in (0, 1):  # both dispatch sites on every path (the replay posts to both routes as well)
+        if not _h_route(route, n, ddef, dnull, m, req_fields):
+            return False
+    return True
+
+
+def _h_route(route: int, n: int, ddef, dnull, m: int, req_fields: list) -> bool:  # noqa: ANN001
+    method = _STREAM_NAME if route == 1 else _UNARY_NAME
+    info = _H_INFOS[route]
+    info.param_types, info.param_defaults, decl = {}, {}, []
+    for i in range(n):
+        name = _H_DECL[i]
+        info.param_types[name] = (int | None) if dnull[i] else int
+        if ddef[i]:
+            info.param_defaults[name] = None if dnull[i] else 0
+        decl.append(_HField(name, True, bool(dnull[i])))  # declared nullability follows the annotation (_build_params_schema)
+    info.params_schema = _HSchema(decl)
+    _HST["past"], _HST["fields"], _HST["method"] = False, req_fields, method
+    _OUT["step"] = _STEP_NONE
+    del _REC[:]
+    resp = _Resp()
+    tok = _current_request_param_schema.set(None)
+    accepted, raised = False, None
+    try:
+        _POSTS[route](_HHolder(), _Req(_ARROW_CONTENT_TYPE), resp, method)
+    except HarnessModelError:
+        raise
+    except _PastValidation:
+        accepted = True
+    except falcon.HTTPError as e:
+        raised = e
+    except Exception:  # noqa: BLE001
+        return False  # escapes the resource: Falcon's bare 500 + JSON
+    finally:
+        _current_request_param_schema.reset(tok)
+    if accepted:
+        return True  # the call is dispatched: which batches may be is C06's question, not the status mapping's
+    if _HST["past"]:
+        raise HarnessModelError("request validation itself read a server attribute the (h) stand-in does not model")
+    # the reference: does the batch equal the declared parameters in number, order, name, type, nullability?
+    conforming = m == n
+    if conforming:
+        for i in range(n):
+            f = req_fields[i]
+            if f.name != _H_DECL[i] or not f.type.tok or bool(f.nullable) != bool(dnull[i]):
+                conforming = False
+                break
+    # a refused non-conforming batch is a parameter rejection => 400; a refused conforming one (the
+    # validators' own decision, C06) may be answered either way — never a bare 5xx
+    allowed = _EITHER if conforming else (400,)
+    if raised is not None:
+        code, marked, arrow = _rendered_by_app(raised)
+    else:
+        code, marked = _code(resp.status), _marked(resp)
+        arrow = resp.content_type == _ARROW_CONTENT_TYPE and _stub_body_ok(resp)
+    return _answer_verdict(code, marked, arrow, allowed) is None
+
+
+ENCODED.extend([_wire_mod._validate_call_signature, _wire_mod._deserialize_params, _wire_mod._validate_params])
